@@ -58,18 +58,24 @@ theorem string_slice_in_range (cs : List Char) (n : Nat) (h : scanOne cs = some 
 
 /-! ## the main theorem -/
 
-/-- **The lexer is the spec**: same tokens (kinds, texts, locations), same carried string, same
-error column - for every line number, every carried string and every line. -/
-theorem scan_eq_spec (lno : Nat) (pending ln : String) :
+/-- **The lexer is the spec**: same tokens (kinds, texts, locations), same carried string literal
+(`none`: nothing pending, `some ""`: an empty literal pending), same error column - for every line
+number, every carried literal and every line. -/
+theorem scan_eq_spec (lno : Nat) (pending : Option String) (ln : String) :
     (Lex.line lno pending ln).map (fun o => (o.toks, o.pending)) = lexLine lno pending ln :=
   line_eq_spec lno pending ln
 
-theorem scan_ok_iff (lno : Nat) (pending ln : String) (out : LineOut) :
+/-- `Lexer::finish` is the spec's end-of-input rule: the pending literal, if any, as ONE string token
+at the position where the lexer stopped -/
+theorem finish_eq_spec (pending : Option String) (loc : Loc) :
+    (Lex.finish pending loc).toList = lexFinish pending loc := rfl
+
+theorem scan_ok_iff (lno : Nat) (pending : Option String) (ln : String) (out : LineOut) :
     Lex.line lno pending ln = .ok out ↔
       lexLine lno pending ln = .ok (out.toks, out.pending) ∧ out.endCol = ln.utf8ByteSize + 1 := by
   rw [line_ok_iff, byteLen_toList]
 
-theorem scan_error_iff (lno : Nat) (pending ln : String) (c : Nat) :
+theorem scan_error_iff (lno : Nat) (pending : Option String) (ln : String) (c : Nat) :
     Lex.line lno pending ln = .error c ↔ lexLine lno pending ln = .error c :=
   line_error_iff lno pending ln c
 
@@ -82,7 +88,7 @@ theorem fuel_suffices (lno f₁ f₂ pos : Nat) (cs : List Char) (s : St)
   loop_fuel lno f₁ f₂ pos cs s h₁ h₂
 
 /-- `Lex.line` always returns: either a token list or an error column inside the line. -/
-theorem lex_total (lno : Nat) (pending ln : String) :
+theorem lex_total (lno : Nat) (pending : Option String) (ln : String) :
     (∃ out, Lex.line lno pending ln = .ok out) ∨
       (∃ c, Lex.line lno pending ln = .error c ∧ 1 ≤ c ∧ c ≤ ln.utf8ByteSize) := by
   cases h : Lex.line lno pending ln with
@@ -101,15 +107,15 @@ theorem lex_total (lno : Nat) (pending ln : String) :
 
 /-- The matched lexemes (tokens and skipped spans alike) tile the line in order, each being
 the selected match at its position, and the tokens are read off them. -/
-theorem cover (lno : Nat) (pending ln : String) (out : LineOut) (h : Lex.line lno pending ln = .ok out) :
+theorem cover (lno : Nat) (pending : Option String) (ln : String) (out : LineOut) (h : Lex.line lno pending ln = .ok out) :
     ∃ ls : List Lexeme, Tiling ln.toList ls [] ∧ ls.flatMap (·.text) = ln.toList ∧
-      (out.toks, out.pending) = readToks lno 0 (pendingOf pending) ls := by
+      (out.toks, out.pending) = readToks lno 0 pending ls := by
   obtain ⟨ls, h1, h2⟩ := lexLine_ok ((line_ok_iff _ _ _ _).1 h).1
   exact ⟨ls, h1, by simpa using h1.cover.symm, h2⟩
 
 /-- Every non-string token sits on line `lno`, at column `1 +` the UTF-8 byte offset of the
 first character of its lexeme, and its lexeme is the selected match at that offset. -/
-theorem columns (lno : Nat) (pending ln : String) (out : LineOut) (h : Lex.line lno pending ln = .ok out)
+theorem columns (lno : Nat) (pending : Option String) (ln : String) (out : LineOut) (h : Lex.line lno pending ln = .ok out)
     (t : Tok) (ht : t ∈ out.toks) (hk : t.kind ≠ .strLit) :
     t.loc.line = lno ∧
     ∃ (pre lexeme post : List Char) (r : LexRule),
@@ -118,7 +124,7 @@ theorem columns (lno : Nat) (pending ln : String) (out : LineOut) (h : Lex.line 
       t.text = tokVal t.kind lexeme ∧
       t.loc.col = 1 + (String.ofList pre).utf8ByteSize := by
   obtain ⟨ls, h1, h2⟩ := lexLine_ok ((line_ok_iff _ _ _ _).1 h).1
-  have ht' : t ∈ (readToks lno 0 (pendingOf pending) ls).1 := by rw [← h2]; exact ht
+  have ht' : t ∈ (readToks lno 0 pending ls).1 := by rw [← h2]; exact ht
   obtain ⟨l1, l, l2, e1, e2, e3, e4⟩ := readToks_nonstr lno ls 0 _ t ht' hk
   subst e1
   obtain ⟨post, p1, p2⟩ := h1.split
@@ -126,14 +132,14 @@ theorem columns (lno : Nat) (pending ln : String) (out : LineOut) (h : Lex.line 
   rw [e4]; simp only [byteLen]; omega
 
 /-- All tokens of a line carry that line's number. -/
-theorem line_numbers (lno : Nat) (pending ln : String) (out : LineOut)
+theorem line_numbers (lno : Nat) (pending : Option String) (ln : String) (out : LineOut)
     (h : Lex.line lno pending ln = .ok out) (t : Tok) (ht : t ∈ out.toks) : t.loc.line = lno := by
   obtain ⟨ls, _, h2⟩ := lexLine_ok ((line_ok_iff _ _ _ _).1 h).1
   exact readToks_line lno ls 0 _ t (by rw [← h2]; exact ht)
 
 /-- A (merged) string token is emitted immediately before the next non-string token and carries
 that token's position. -/
-theorem string_token_position (lno : Nat) (pending ln : String) (out : LineOut)
+theorem string_token_position (lno : Nat) (pending : Option String) (ln : String) (out : LineOut)
     (h : Lex.line lno pending ln = .ok out) (a : List Tok) (t : Tok) (b : List Tok)
     (hs : out.toks = a ++ t :: b) (hk : t.kind = .strLit) :
     ∃ t' b', b = t' :: b' ∧ t'.kind ≠ .strLit ∧ t'.loc = t.loc := by
@@ -145,13 +151,13 @@ theorem string_token_position (lno : Nat) (pending ln : String) (out : LineOut)
 /-- A lex error is located at the first character that cannot start a token: the line splits
 as `pre ++ rest` with `c = 1 +` the byte length of `pre`; `pre` ALONE lexes (with the same
 carried string) and is tiled by selected matches; and no rule matches at `rest`. -/
-theorem error_first_bad (lno : Nat) (pending ln : String) (c : Nat)
+theorem error_first_bad (lno : Nat) (pending : Option String) (ln : String) (c : Nat)
     (h : Lex.line lno pending ln = .error c) :
     ∃ (pre rest : List Char) (ls : List Lexeme),
       ln.toList = pre ++ rest ∧ c = 1 + (String.ofList pre).utf8ByteSize ∧
       -- the prefix lexes
       (∃ out, Lex.line lno pending (String.ofList pre) = .ok out ∧
-        (out.toks, out.pending) = readToks lno 0 (pendingOf pending) ls) ∧
+        (out.toks, out.pending) = readToks lno 0 pending ls) ∧
       Tiling pre ls [] ∧ ls.flatMap (·.text) = pre ∧
       -- nothing matches at the offending character
       rest ≠ [] ∧ (∀ r ∈ rules, matchLen r rest = none) ∧ scanOne rest = none := by
@@ -159,13 +165,13 @@ theorem error_first_bad (lno : Nat) (pending ln : String) (c : Nat)
     lexLine_error_prefix ((line_error_iff _ _ _ _).1 h)
   refine ⟨pre, rest, ls, h1, h4, ?_, h5, h6, h2, (select_none_iff rest).1 h3, by
     rw [LexLemmas.scanOne_eq_spec, h3]; rfl⟩
-  refine ⟨⟨(readToks lno 0 (pendingOf pending) ls).1, (readToks lno 0 (pendingOf pending) ls).2,
+  refine ⟨⟨(readToks lno 0 pending ls).1, (readToks lno 0 pending ls).2,
     byteLen (String.ofList pre).toList + 1⟩, ?_, rfl⟩
   rw [line_ok_iff]
   exact ⟨h7, rfl⟩
 
 /-- the in-context form: the lexemes before the error tile the line up to `rest` -/
-theorem error_tiling (lno : Nat) (pending ln : String) (c : Nat)
+theorem error_tiling (lno : Nat) (pending : Option String) (ln : String) (c : Nat)
     (h : Lex.line lno pending ln = .error c) :
     ∃ (ls : List Lexeme) (rest : List Char),
       Tiling ln.toList ls rest ∧ ln.toList = ls.flatMap (·.text) ++ rest ∧
@@ -177,7 +183,7 @@ theorem error_tiling (lno : Nat) (pending ln : String) (c : Nat)
 
 /-- Tokenisation is a function of the text and the carried string; the line number only
 appears as `loc.line` of the tokens. -/
-theorem depends_only_on_text (lno lno' : Nat) (pending ln : String) :
+theorem depends_only_on_text (lno lno' : Nat) (pending : Option String) (ln : String) :
     Lex.line lno' pending ln =
       (Lex.line lno pending ln).map fun o => { o with toks := o.toks.map (relocate lno') } := by
   cases h : Lex.line lno pending ln with
@@ -205,51 +211,93 @@ theorem depends_only_on_text (lno lno' : Nat) (pending ln : String) :
       rw [readToks_lno lno lno', h1]
 
 /-- determinism, spelled out -/
-theorem deterministic (lno : Nat) (pending ln : String) (r₁ r₂ : Except Nat LineOut)
+theorem deterministic (lno : Nat) (pending : Option String) (ln : String) (r₁ r₂ : Except Nat LineOut)
     (h₁ : Lex.line lno pending ln = r₁) (h₂ : Lex.line lno pending ln = r₂) : r₁ = r₂ := h₁ ▸ h₂ ▸ rfl
 
-/-! ## a documented finding: an empty carried string literal is lost
+/-! ## an empty carried string literal is kept
 
-The Rust lexer stores the literal text carried to the next line as a plain `String` and
-tests `is_empty()` to find out whether anything is pending. So `f(""` ⏎ `)` loses the empty
-literal, while `f("")` on one line keeps it. Model and spec reproduce this. -/
+The carried literal is an `Option String` (Rust: `concatenated_strings: Option<String>`), so an
+EMPTY literal that is pending at the end of a line (`some ""`) is distinguished from "nothing
+pending" (`none`): `f(""` ⏎ `);` yields the empty string token on the second line, exactly as
+`f("");` on one line does. (Before the C10 fix the carried text was a plain `String` tested with
+`is_empty()`, and the empty literal was lost across the line break.) -/
 
-theorem pending_empty_lost :
-    -- first line: `f(""` - the empty literal is carried as the empty string
-    (Lex.line 1 "" "f(\"\"").map (fun o => (o.toks, o.pending)) =
-        .ok ([⟨.ident, "f", ⟨1, 1⟩⟩, ⟨.lparen, "", ⟨1, 2⟩⟩], "") ∧
-    -- second line: `)` - no string token comes out
-    (Lex.line 2 "" ")").map (fun o => (o.toks, o.pending)) = .ok ([⟨.rparen, "", ⟨2, 1⟩⟩], "") ∧
-    -- on one line the literal is there
-    (Lex.line 1 "" "f(\"\")").map (fun o => (o.toks, o.pending)) =
-        .ok ([⟨.ident, "f", ⟨1, 1⟩⟩, ⟨.lparen, "", ⟨1, 2⟩⟩, ⟨.strLit, "", ⟨1, 5⟩⟩, ⟨.rparen, "", ⟨1, 5⟩⟩], "") ∧
+theorem pending_empty_kept :
+    -- first line: `f(""` - the empty literal is carried as `some ""`
+    (Lex.line 1 none "f(\"\"").map (fun o => (o.toks, o.pending)) =
+        .ok ([⟨.ident, "f", ⟨1, 1⟩⟩, ⟨.lparen, "", ⟨1, 2⟩⟩], some "") ∧
+    -- second line: `);` - the empty string token comes out, at the position of `)`
+    (Lex.line 2 (some "") ");").map (fun o => (o.toks, o.pending)) =
+        .ok ([⟨.strLit, "", ⟨2, 1⟩⟩, ⟨.rparen, "", ⟨2, 1⟩⟩, ⟨.semi, "", ⟨2, 2⟩⟩], none) ∧
+    -- whereas with nothing pending there is no string token
+    (Lex.line 2 none ");").map (fun o => (o.toks, o.pending)) =
+        .ok ([⟨.rparen, "", ⟨2, 1⟩⟩, ⟨.semi, "", ⟨2, 2⟩⟩], none) ∧
+    -- on one line the literal is there as well
+    (Lex.line 1 none "f(\"\")").map (fun o => (o.toks, o.pending)) =
+        .ok ([⟨.ident, "f", ⟨1, 1⟩⟩, ⟨.lparen, "", ⟨1, 2⟩⟩, ⟨.strLit, "", ⟨1, 5⟩⟩, ⟨.rparen, "", ⟨1, 5⟩⟩], none) ∧
     -- and a non-empty literal survives the line break
-    (Lex.line 1 "" "f(\"a\"").map (fun o => (o.toks, o.pending)) =
-        .ok ([⟨.ident, "f", ⟨1, 1⟩⟩, ⟨.lparen, "", ⟨1, 2⟩⟩], "a") ∧
-    (Lex.line 2 "a" ")").map (fun o => (o.toks, o.pending)) =
-        .ok ([⟨.strLit, "a", ⟨2, 1⟩⟩, ⟨.rparen, "", ⟨2, 1⟩⟩], "") :=
-  ⟨rfl, rfl, rfl, rfl, rfl⟩
+    (Lex.line 1 none "f(\"a\"").map (fun o => (o.toks, o.pending)) =
+        .ok ([⟨.ident, "f", ⟨1, 1⟩⟩, ⟨.lparen, "", ⟨1, 2⟩⟩], some "a") ∧
+    (Lex.line 2 (some "a") ")").map (fun o => (o.toks, o.pending)) =
+        .ok ([⟨.strLit, "a", ⟨2, 1⟩⟩, ⟨.rparen, "", ⟨2, 1⟩⟩], none) :=
+  ⟨rfl, rfl, rfl, rfl, rfl, rfl⟩
 
-/-- the same finding on the spec: the empty carried string is "nothing pending" -/
-theorem pending_empty_lost_spec : pendingOf "" = none ∧
-    lexLine 2 "" ")" = .ok ([⟨.rparen, "", ⟨2, 1⟩⟩], "") := ⟨rfl, rfl⟩
+/-- the same on the spec: `some ""` is a pending (empty) literal, `none` is nothing pending -/
+theorem pending_empty_kept_spec :
+    lexLine 1 none "f(\"\"" = .ok ([⟨.ident, "f", ⟨1, 1⟩⟩, ⟨.lparen, "", ⟨1, 2⟩⟩], some "") ∧
+    lexLine 2 (some "") ");" =
+      .ok ([⟨.strLit, "", ⟨2, 1⟩⟩, ⟨.rparen, "", ⟨2, 1⟩⟩, ⟨.semi, "", ⟨2, 2⟩⟩], none) ∧
+    lexLine 2 none ");" = .ok ([⟨.rparen, "", ⟨2, 1⟩⟩, ⟨.semi, "", ⟨2, 2⟩⟩], none) := ⟨rfl, rfl, rfl⟩
+
+/-- in general: a literal pending at the start of a line (empty or not) is never dropped - it is
+either still part of the carried literal after the line, or of the first token of the line, which
+then is a string token. -/
+theorem pending_kept (lno : Nat) (p : String) (ln : String) (out : LineOut)
+    (h : Lex.line lno (some p) ln = .ok out) :
+    (out.toks = [] ∧ ∃ q, out.pending = some (p ++ q)) ∨
+      (∃ t ts q, out.toks = t :: ts ∧ t.kind = .strLit ∧ t.text = p ++ q) := by
+  obtain ⟨ls, _, h2⟩ := lexLine_ok ((line_ok_iff _ _ _ _).1 h).1
+  have key : ∀ (ls : List Lexeme) (off : Nat) (p : String),
+      ((readToks lno off (some p) ls).1 = [] ∧ ∃ q, (readToks lno off (some p) ls).2 = some (p ++ q)) ∨
+      (∃ t ts q, (readToks lno off (some p) ls).1 = t :: ts ∧ t.kind = .strLit ∧ t.text = p ++ q) := by
+    intro ls
+    induction ls with
+    | nil => intro off p; exact .inl ⟨rfl, "", by simp [readToks]⟩
+    | cons l ls ih =>
+      intro off p
+      cases hkind : l.rule.kind with
+      | none => simp only [readToks, hkind]; exact ih _ _
+      | some k =>
+        by_cases hs : k = .strLit
+        · subst hs
+          simp only [readToks, hkind, Option.getD_some]
+          rcases ih (off + byteLen l.text) (p ++ strInner l.text) with ⟨h1, q, hq⟩ | ⟨t, ts, q, h1, h3, h4⟩
+          · exact .inl ⟨h1, strInner l.text ++ q, by rw [hq, String.append_assoc]⟩
+          · exact .inr ⟨t, ts, strInner l.text ++ q, h1, h3, by rw [h4, String.append_assoc]⟩
+        · refine .inr ⟨⟨.strLit, p, ⟨lno, off + 1⟩⟩,
+            ⟨k, tokVal k l.text, ⟨lno, off + 1⟩⟩ :: (readToks lno (off + byteLen l.text) none ls).1, "",
+            ?_, rfl, by simp⟩
+          cases k <;> first | exact absurd rfl hs | simp [readToks, hkind]
+  have := key ls 0 p
+  rw [← h2] at this
+  exact this
 
 /-! ## non-vacuity -/
 
 -- all rule classes, string merging, byte columns (`é` is two bytes), IPv4 last octet
-example : lexLine 7 "" "let é" = .error 5 := rfl
-example : (Lex.line 7 "" "let x = f(\"a\" \"b\", 0x1F, -5, true, truex, 1.2.3.256)::y.z:1/2; // c").map
+example : lexLine 7 none "let é" = .error 5 := rfl
+example : (Lex.line 7 none "let x = f(\"a\" \"b\", 0x1F, -5, true, truex, 1.2.3.256)::y.z:1/2; // c").map
       (fun o => (o.toks.map fun t => (t.kind, t.text, t.loc.col), o.pending)) =
     .ok ([(.kwLet, "", 1), (.ident, "x", 5), (.equals, "", 7), (.ident, "f", 9), (.lparen, "", 10),
       (.strLit, "ab", 18), (.comma, "", 18), (.hexLit, "0x1F", 20), (.comma, "", 24), (.intLit, "-5", 26),
       (.comma, "", 28), (.boolLit, "true", 30), (.comma, "", 34), (.ident, "truex", 36), (.comma, "", 41),
       (.ipv4Lit, "1.2.3.25", 43), (.intLit, "6", 51), (.rparen, "", 52), (.dcolon, "", 53), (.ident, "y", 55),
       (.dot, "", 56), (.ident, "z", 57), (.colon, "", 58), (.intLit, "1", 59), (.slash, "", 60),
-      (.intLit, "2", 61), (.semi, "", 62)], "") := rfl
-example : (Lex.line 1 "" "\"é\" x").map (fun o => o.toks) =
+      (.intLit, "2", 61), (.semi, "", 62)], none) := rfl
+example : (Lex.line 1 none "\"é\" x").map (fun o => o.toks) =
     .ok [⟨.strLit, "é", ⟨1, 6⟩⟩, ⟨.ident, "x", ⟨1, 6⟩⟩] := rfl
-example : Lex.line 1 "" "x = \"abc" = .error 5 := rfl
-example : Lex.line 1 "" "ab @" = .error 4 := rfl
+example : Lex.line 1 none "x = \"abc" = .error 5 := rfl
+example : Lex.line 1 none "ab @" = .error 4 := rfl
 example : select "import x".toList = some (.keyword .kwImport "import", 6) := rfl
 example : select "importx".toList = some (.ident, 7) := rfl
 example : select "256.1.1.1".toList = some (.int, 3) := rfl
